@@ -329,15 +329,8 @@ fn commutation(rep: &mut Reporter) -> (u64, Vec<String>) {
     (n, non_commuting)
 }
 
-pub fn run(tier: Tier, _replay: Option<String>, part: Option<usize>) -> i32 {
-    let mut rep = Reporter::new("C05", tier, "model_checking");
-    let bound = if tier.is_thorough() { 2 } else { 1 };
-    let mut total_exec = 0u64;
-    let mut total_steps = 0u64;
-    let mut abstract_states = 0usize;
-    let mut arrival_orders = 0usize;
-    let mut scen_json = Vec::new();
-    // (a)
+/// The scheduler scenarios of part (a).
+fn scenarios(tier: Tier) -> Vec<(String, Scn, Extra)> {
     let mut scenarios: Vec<(String, Scn, Extra)> = Vec::new();
     for (mode, stave) in [(Mode::All, false), (Mode::AllIts, false), (Mode::AllStave, true)] {
         for mute in [false, true] {
@@ -391,19 +384,102 @@ pub fn run(tier: Tier, _replay: Option<String>, part: Option<usize>) -> i32 {
         let want: Vec<u8> = per_link[link as usize].iter().flat_map(|p| p.packet.bytes()).collect();
         scenarios.push((format!("filtered writing --filter-link {link} -o file, 2 links x 2 HBFs, batch 1, queue capacity {:?}", cap_override), Scn { mode: Mode::Write(link), mute: false, max_errors: 0, signal: false, cap: 1, input: Arc::new(bytes), scratch: scratch(), toml: false }, Extra { cap_override, expected_output: Some(want) }));
     }
+    scenarios
+}
+
+fn set_process_config(mute: bool) {
+    // the ALPIDE frame messages are formatted with the help of the process-wide configuration (mute option)
+    use clap::Parser;
+    let mut argv = vec!["fastpasta", "check", "all", "its-stave"];
+    if mute {
+        argv.insert(1, "-m");
+    }
+    let _ = fastpasta::config::CONFIG.set(fastpasta::config::Cfg::parse_from(argv));
+}
+
+/// Re-executes the schedule(s) of a stored violation without the explorer: each schedule twice (same observations),
+/// then the stored condition is evaluated again. 1 = reproduced, 0 = not reproduced, 2 = cannot replay.
+fn replay_file(path: &str) -> i32 {
+    let Ok(txt) = std::fs::read_to_string(path) else {
+        say!("REPLAY: cannot read {path}");
+        return 2;
+    };
+    let v: serde_json::Value = serde_json::from_str(&txt).unwrap_or(serde_json::Value::Null);
+    let sig = v["signature"].as_str().unwrap_or("").to_string();
+    let r = &v["replay"];
+    if let Some(shape) = r["shape_packets"].as_array() {
+        let shape: Vec<usize> = shape.iter().filter_map(|x| x.as_u64().map(|n| n as usize)).collect();
+        let mute = r["mute"].as_bool().unwrap_or(false);
+        std::env::set_var("VERIF_REPLAY_SIG", &sig);
+        let mut rep = Reporter::new("C05", Tier::Quick, "model_checking");
+        let (n, distinct) = closure_shape(&mut rep, &shape, mute);
+        say!("REPLAY: {n} merges of shape {:?} (mute {mute}) give {distinct} distinct outputs", shape);
+        return if distinct > 1 { 1 } else { 0 };
+    }
+    if r["pair"].is_string() {
+        let mut rep = Reporter::new("C05", Tier::Quick, "model_checking");
+        let (_, nc) = commutation(&mut rep);
+        let hit = nc.iter().any(|p| Some(p.as_str()) == r["pair"].as_str());
+        say!("REPLAY: message kinds {} {}", r["pair"], if hit { "do not commute" } else { "commute" });
+        return if hit { 1 } else { 0 };
+    }
+    let label = r["scenario"].as_str().unwrap_or("");
+    let found = [Tier::Quick, Tier::Thorough].into_iter().flat_map(scenarios).find(|(l, _, _)| l == label);
+    let Some((label, scn, extra)) = found else {
+        say!("REPLAY: no scenario with the label {label:?}");
+        return 2;
+    };
+    set_process_config(scn.mute);
+    let cfg = scenario::config(&scn);
+    let schedules: Vec<Vec<usize>> = ["schedule", "schedule_a", "schedule_b"].iter().filter_map(|k| r[*k].as_array()).map(|a| a.iter().filter_map(|x| x.as_u64().map(|n| n as usize)).collect()).collect();
+    if schedules.is_empty() {
+        say!("REPLAY: the file holds no schedule");
+        return 2;
+    }
+    let mut outcomes = Vec::new();
+    let mut reproduced = false;
+    for sch in &schedules {
+        let descending = sch.first() == Some(&usize::MAX);
+        let prefix: Vec<usize> = if descending { sch[1..].to_vec() } else { sch.clone() };
+        let pol = Policy { prefix, descending, cap_override: extra.cap_override, ..base_policy() };
+        let (r1, o1) = scenario::run(&scn, cfg, pol.clone());
+        let (r2, o2) = scenario::run(&scn, cfg, pol);
+        if r1.steps != r2.steps || o1 != o2 {
+            say!("REPLAY: the same schedule gave different observations twice (uncontrolled nondeterminism) - not a valid replay");
+            return 2;
+        }
+        let abnormal = r1.outcome != Outcome::Completed || !r1.panics.is_empty();
+        let wrong_output = extra.expected_output.as_ref().map_or(false, |w| o1.output_file.as_ref() != Some(w));
+        say!("REPLAY: [{label}] schedule {:?}{}: {:?}, {} steps, panics {:?}, statistics file {} bytes (fnv {:016x}), any-errors {}, output file {:?} bytes{}", if descending { &sch[1..] } else { &sch[..] }, if descending { " (descending base)" } else { "" }, r1.outcome, r1.steps.len(), r1.panics, o1.stats_file.as_ref().map_or(0, |f| f.len()), fp_model::util::fnv(o1.stats_file.as_deref().unwrap_or(b"")), o1.any_errors, o1.output_file.as_ref().map(|f| f.len()), if wrong_output { " - differs from the selected link's packets" } else { "" });
+        reproduced |= abnormal || wrong_output;
+        outcomes.push((o1.stats_file.clone(), o1.any_errors, o1.output_file.clone()));
+    }
+    if outcomes.len() == 2 && outcomes[0] != outcomes[1] {
+        say!("REPLAY: the two schedules give different outcomes: {}", first_diff_line(outcomes[0].0.as_deref().unwrap_or(b""), outcomes[1].0.as_deref().unwrap_or(b"")));
+        reproduced = true;
+    }
+    let _ = std::fs::remove_dir_all(scratch());
+    if reproduced { 1 } else { 0 }
+}
+
+pub fn run(tier: Tier, replay: Option<String>, part: Option<usize>) -> i32 {
+    if let Some(path) = replay {
+        return replay_file(&path);
+    }
+    let mut rep = Reporter::new("C05", tier, "model_checking");
+    let bound = if tier.is_thorough() { 2 } else { 1 };
+    let mut total_exec = 0u64;
+    let mut total_steps = 0u64;
+    let mut abstract_states = 0usize;
+    let mut arrival_orders = 0usize;
+    let mut scen_json = Vec::new();
+    // (a)
+    let scenarios = scenarios(tier);
     let cap = if tier.is_thorough() { 400_000 } else { 6_000 };
     if let Some(k) = part {
         // worker process: one scenario
         let (label, scn, extra) = &scenarios[k];
-        // the ALPIDE frame messages are formatted with the help of the process-wide configuration (mute option)
-        {
-            use clap::Parser;
-            let mut argv = vec!["fastpasta", "check", "all", "its-stave"];
-            if scn.mute {
-                argv.insert(1, "-m");
-            }
-            let _ = fastpasta::config::CONFIG.set(fastpasta::config::Cfg::parse_from(argv));
-        }
+        set_process_config(scn.mute);
         let so = explore_scenario(&mut rep, scn, extra, bound, cap, label);
         crate::parts::write_part(&rep.export_part(json!({"scenario": label, "executions": so.executions, "steps": so.steps, "abstract_states": so.abstract_states, "distinct_outputs": so.distinct_outputs, "distinct_arrival_orders": so.distinct_arrival_orders, "deviation_bound": bound, "capped": so.capped})));
         let _ = std::fs::remove_dir_all(scratch());
